@@ -26,7 +26,6 @@ class Database:
         self.sql_renderer = sql_renderer
         self.dbml_renderer = dbml_renderer
         self.tables: List['Table'] = []
-        self.table_dict: Dict[str, 'Table'] = {}
         self.refs: List['Reference'] = []
         self.enums: List['Enum'] = []
         self.table_groups: List['TableGroup'] = []
@@ -36,6 +35,19 @@ class Database:
 
     def __repr__(self) -> str:
         return f"<Database>"
+
+    @property
+    def table_dict(self) -> Dict[str, 'Table']:
+        '''
+        Tables by full name and by alias. Derived from the table list, so it follows
+        renames of the contained tables.
+        '''
+        result: Dict[str, 'Table'] = {}
+        for table in self.tables:
+            result[table.full_name] = table
+            if table.alias:
+                result[table.alias] = table
+        return result
 
     def __getitem__(self, k: Union[int, str]) -> Table:
         if isinstance(k, int):
@@ -81,9 +93,6 @@ class Database:
         self._set_database(obj)
 
         self.tables.append(obj)
-        self.table_dict[obj.full_name] = obj
-        if obj.alias:
-            self.table_dict[obj.alias] = obj
         return obj
 
     def add_reference(self, obj: Reference):
@@ -155,10 +164,8 @@ class Database:
             index = self.tables.index(obj)
         except ValueError:
             raise DatabaseValidationError(f'{obj} is not in the database.')
-        self._unset_database(self.tables.pop(index))
-        result = self.table_dict.pop(obj.full_name)
-        if obj.alias:
-            self.table_dict.pop(obj.alias)
+        result = self.tables.pop(index)
+        self._unset_database(result)
         return result
 
     def delete_reference(self, obj: Reference) -> Reference:
